@@ -31,7 +31,7 @@ ASSUMPTIONS = [
 ]
 MINIMA = {
     "quick": {"reads_compared": 1500, "midblock_cross_nonadjacent": 100, "beyond_first_chunk_reads": 50, "blocks_beyond_1TiB_file_offset": 20},
-    "thorough": {"reads_compared": 15000},
+    "thorough": {"reads_compared": 150000},
 }
 MECH = "vhdx.read"
 DATA = os.path.join(os.environ.get("VF_REPO", "/repo"), "tests", "data")
@@ -42,7 +42,7 @@ def plan(tier: str, seed: int) -> list[dict]:
     rng = rng_for(seed, ID, "plan")
     cases = []
     blocks = [1, 1, 2, 4, 8, 32] if tier == "quick" else [1, 2, 4, 8, 16, 32, 64, 128, 256]
-    for i in range(140 if tier == "quick" else 1500):
+    for i in range(140 if tier == "quick" else 6000):
         bmb = rng.choice(blocks)
         cases.append({"k": "rand", "i": i, "bmb": bmb, "ss": rng.choice([512, 4096]),
                       "n": rng.randrange(1, 12 if bmb <= 4 else 5),
@@ -50,7 +50,7 @@ def plan(tier: str, seed: int) -> list[dict]:
     # interleaved sector-bitmap slots: more blocks than the chunk ratio
     inter = [(1, 512), (32, 512), (8, 512), (32, 4096)] if tier == "quick" else [(1, 512), (2, 512), (8, 512), (32, 512), (256, 512), (8, 4096), (32, 4096), (256, 4096), (1, 4096)]
     for j, (bmb, ss) in enumerate(inter):
-        for r in range(4 if tier == "quick" else 8):
+        for r in range(4 if tier == "quick" else 30):
             cases.append({"k": "chunks", "i": j * 100 + r, "bmb": bmb, "ss": ss, "weight": 6})
     for f in ("dynamic.vhdx.gz", "fixed.vhdx.gz"):
         cases.append({"k": "fixture", "name": f, "weight": 20})
